@@ -215,6 +215,9 @@ def run_shard(shard, acc):
         else:
             logic = data.draw(gen.logic_name())
         prof = PROFILES[pname].for_logic(logic)
+        if pname == 'generic':
+            # fragments the logic does not interpret stay in with a small weight: they are its uninterpreted sentences
+            prof = PROFILES[pname].for_logic(logic, modal=prof.w_modal or 1, quant=prof.w_quant or 1)
         nprem = data.draw(st.integers(1, 3)) if pname in ('modal-heavy', 'modal-deep') else data.draw(st.integers(0, 3))
         prem = [data.draw(gen.sentence(prof)) for _ in range(nprem)]
         con = data.draw(gen.sentence(prof))
